@@ -73,7 +73,8 @@ def run_fuzz(item):
             shutil.copy(f, cdir)
     env = dict(os.environ, **SAN_ENV)
     env["VERIF_TMP"] = work
-    cmd = [exe, "-seed=%d" % seed, "-runs=%d" % runs, "-max_len=%d" % (256 if target == "formula" else 2048), "-artifact_prefix=" + work + "/",
+    env["FUZZ_API_STATS"] = os.path.join(work, "api_stats.json")
+    cmd = [exe, "-seed=%d" % seed, "-runs=%d" % runs, "-max_len=%d" % (256 if target == "formula" else 2048 if target == "crystalfile" else 512), "-artifact_prefix=" + work + "/",
            "-print_final_stats=1", "-timeout=20", "-rss_limit_mb=2048", cdir]
     if target == "formula":
         cmd.append("-only_ascii=0")
@@ -83,6 +84,13 @@ def run_fuzz(item):
     n = int(m.group(1)) if m else 0
     st.ev(n)
     st.cls("fuzz_execs:" + target, n)
+    if target == "api" and os.path.exists(env["FUZZ_API_STATS"]):
+        try:
+            s = json.load(open(env["FUZZ_API_STATS"]))
+            st.cls("fuzz_api_calls", s.get("calls", 0))
+            st.cls("fuzz_api_failing_calls", s.get("failing_calls", 0))
+        except ValueError:
+            pass
     cov = re.findall(r"cov: (\d+)", err)
     if cov:
         st.note("fuzz_cov_%s_max" % target, int(cov[-1]))
@@ -108,6 +116,21 @@ def run_fuzz(item):
     return st
 
 
+def build_api_fuzzer(ctx, bfb):
+    """fuzz/fuzz_api.cpp = the universal interpreter + a byte decoder, against the fuzzer-instrumented library of configuration B"""
+    import apigen
+    gen = os.path.join(ctx.sdir, "gen_fuzzapi")
+    os.makedirs(gen, exist_ok=True)
+    apigen.generate(bfb["src"], os.path.join(gen, "gen_dispatch.inc"))
+    exe = os.path.join(ctx.sdir, "fuzz_api")
+    cmd = ["clang++", "-std=gnu++17", "-g", "-O1", "-fsanitize=fuzzer,address,undefined", "-fno-sanitize-recover=undefined", "-Wno-deprecated-declarations", "-I" + gen] + \
+          ["-I" + i for i in bfb["incs"]] + [os.path.join(VERIF, "fuzz", "fuzz_api.cpp"), bfb["lib"], "-lm", "-lpthread", "-o", exe]
+    rc, out = vbuild.run(cmd)
+    if rc != 0:
+        raise vbuild.BuildError("fuzz target api failed to build\n%s" % out[-3000:])
+    return exe
+
+
 def run(ctx):
     import concurrent.futures as cf
     quick = ctx.quick
@@ -120,10 +143,11 @@ def run(ctx):
     ctx.stats.nviol = sum(ctx.stats.per_sig.values())
     ctx.extra["contract_violations_left_to_C03"] = dropped
     # (b) + (c) share one ASan build and one fuzzer build
-    with cf.ThreadPoolExecutor(2) as ex:
+    with cf.ThreadPoolExecutor(3) as ex:
         fa = ex.submit(ctx.build, "asan", "A")
         ff = ex.submit(ctx.build, "fuzz", "A")
-        ba, bf = fa.result(), ff.result()
+        fb = ex.submit(ctx.build, "fuzz", "B")
+        ba, bf, bfb = fa.result(), ff.result(), fb.result()
     hist_exe = os.path.join(ctx.sdir, "c04_hist")
     vbuild.compile_harness(ctx.sdir, ba, [os.path.join(VERIF, "harness", "c04_hist.cpp")], hist_exe, libs=["-lrapidcheck"])
     fz = {}
@@ -135,12 +159,13 @@ def run(ctx):
         if rc != 0:
             raise vbuild.BuildError("fuzz target %s failed to build\n%s" % (t, out[-3000:]))
         fz[t] = exe
+    fz["api"] = build_api_fuzzer(ctx, bfb)
     nh, size = (400, 60) if quick else (6000, 120)
     items_h = [(hist_exe, ctx.sdir, mix(ctx.seed, "hist", k) % (2**31 - 1) + 1, nh, size, "h%d" % k) for k in range(6 if quick else 16)]
     runs = 60000 if quick else 3000000
     items_f = []
-    for t in ("formula", "crystalfile"):
-        r = runs if t == "formula" else runs // 6
+    for t in ("formula", "crystalfile", "api"):
+        r = runs if t == "formula" else runs // 6 if t == "crystalfile" else runs // 2
         for k in range(2 if quick else 6):
             items_f.append((fz[t], ctx.sdir, t, mix(ctx.seed, "fz", t, k) % (2**31 - 1) + 1, r, k % 2 == 0, "%s%d" % (t, k)))
     with cf.ThreadPoolExecutor(16) as ex:
@@ -151,7 +176,9 @@ def run(ctx):
                 "(b) rapidcheck histories (seeded, %d x %d cases, size <= %d) over parser / add_compound_data / NIST / nuclide / lists / symbols / "
                 "crystal copies / user arrays incl. AddCrystal and ReadFile (well formed and 5 corruption kinds) / error objects / _CP and refractive "
                 "calls, objects pooled, scribbled over and released in generated order, full release + LeakSanitizer at the end; (c) libFuzzer "
-                "fuzz_formula and fuzz_crystalfile (%d / %d runs each, with and without seed corpus) with semantic oracles inside the target. "
+                "fuzz_formula, fuzz_crystalfile (%d / %d runs each, with and without seed corpus) and fuzz_api (bytes decoded into 1..4 calls of any "
+                "exported function with class and raw arguments; slot/no-slot identity, error <=> failure value, finite results, heap balance) with "
+                "semantic oracles inside the target. "
                 "non-trivial = sweep case (distinct (function, arguments, outcome)); history with a failing constructor after a successful one, a "
                 "copy outliving its original or an insertion beyond the capacity; fuzz input that reached new coverage" % (len(items_h), nh, size, runs, runs // 6))
     ctx.assumptions = ["allocation-failure paths (XRL_ERROR_MEMORY) are not injected", "libFuzzer timeout/oom/slow-unit artefacts are counted as inconclusive, never as violations",
@@ -164,12 +191,15 @@ def replay(ctx, rec):
         return c03.replay(ctx, rec)
     if sig.startswith("fuzz"):
         c = rec["case"]
-        bf = ctx.build("fuzz", "A")
         t = c["target"]
-        exe = os.path.join(ctx.sdir, "fuzz_" + t)
-        cmd = ["clang++", "-std=gnu++17", "-g", "-O1", "-fsanitize=fuzzer,address,undefined", "-fno-sanitize-recover=undefined"] + ["-I" + i for i in bf["incs"]] + \
-              [os.path.join(VERIF, "fuzz", "fuzz_%s.cpp" % t), bf["lib"], "-lm", "-o", exe]
-        vbuild.run(cmd)
+        if t == "api":
+            exe = build_api_fuzzer(ctx, ctx.build("fuzz", "B"))
+        else:
+            bf = ctx.build("fuzz", "A")
+            exe = os.path.join(ctx.sdir, "fuzz_" + t)
+            cmd = ["clang++", "-std=gnu++17", "-g", "-O1", "-fsanitize=fuzzer,address,undefined", "-fno-sanitize-recover=undefined"] + ["-I" + i for i in bf["incs"]] + \
+                  [os.path.join(VERIF, "fuzz", "fuzz_%s.cpp" % t), bf["lib"], "-lm", "-o", exe]
+            vbuild.run(cmd)
         inp = os.path.join(ctx.sdir, "input")
         with open(inp, "wb") as f:
             f.write(bytes.fromhex(c["input_hex"]))
